@@ -152,13 +152,22 @@ def list_remove(I, st, fv, args, kwargs, ctx):
         return [(st, Conc(None))]
     x = I.term(args[0])
     out = []
-    for (q, b) in I.branch(st, z3.Contains(h.seq, z3.Unit(x))):
+    # list.remove compares with `==` (identity first): ValueError iff no element is identical or
+    # equal to x — the same uninterpreted membership as `x in lst` (engine.seq_contains_eq)
+    for (q, b) in I.branch(st, I.seq_contains_eq(h.seq, x)):
         if not b:
             out.append((q, Raise("ValueError")))
             continue
         hq = q.heap[fv.data["self"].oid]
         pre, post = I.U.fresh_seq("rpre"), I.U.fresh_seq("rpost")
-        q.pc += [hq.seq == z3.Concat(pre, z3.Unit(x), post), z3.Not(z3.Contains(pre, z3.Unit(x)))]
+        if I.valid(q, z3.Contains(hq.seq, z3.Unit(x))) and I.valid(q, vm.ty(x) == vm.TAG["object"]):
+            # an opaque object (equality is identity): its first occurrence goes
+            q.pc += [hq.seq == z3.Concat(pre, z3.Unit(x), post), z3.Not(z3.Contains(pre, z3.Unit(x)))]
+        else:
+            e = I.U.fresh("removed")
+            eq = I.py_eq(q, Sym(e), args[0])
+            eq = z3.BoolVal(eq) if isinstance(eq, bool) else eq
+            q.pc += [hq.seq == z3.Concat(pre, z3.Unit(e), post), z3.Or(e == x, eq), z3.Not(vm.mem_eq(pre, x))]
         hq.seq = z3.Concat(pre, post)
         out.append((q, Conc(None)))
     return out
